@@ -15,7 +15,7 @@ RULE = (
     "complete enumeration of: every INTEGER of <=2 (quick) / <=3 (thorough) content octets written and read back, "
     "+-2^k(+-1) for k<=4096; ENUMERATED <=2 octets; BOOLEAN; OIDs first arc 0..2 x second 0..39 x 0..3 further arcs over a "
     "12-value boundary alphabet; octet/UTF-8/time strings at every listed content length; tags class x constructed x number; "
-    "all value trees of depth<=3 fan-out<=2; all concatenations of <=3 values from a 12-value alphabet. "
+    "all value trees of depth<=3 fan-out<=2; all concatenations of <=3 values from a 12-value alphabet; all sequences of <=6 (quick) / <=8 (thorough) reader cursor operations {peek, peek+skip, read, peek+read(header=), get_remaining_data} on one reader over 6 concatenated values, against an index as reference model. "
     "Each case: writer bytes == independent DER encoder, reader value == original, reader leaves exactly the suffix. "
     "Every enumerated value is distinct by construction; all are non-trivial (each executes writer and reader)."
 )
@@ -59,6 +59,8 @@ def shards(tier: str, seed: int):
         out.append(["tree", k])
     out.append(["concat"])
     out.append(["hdr"])
+    for part in range(4):
+        out.append(["readerops", part])
     return out
 
 
@@ -411,6 +413,63 @@ def case_hdr(a, cls, constructed, number, length):
     return None
 
 
+# reader operation sequences ------------------------------------------------------------------------------
+
+OPS_ELEMS = [("int", 300), ("oct", b"\x01\x02\x03"), ("utf", "hé"), ("seq", (("int", 5),)), ("oid", "1.2.840"), ("oct", b"")]
+OPS = "PSRHG"  # peek | peek+skip_value | typed read | peek+read(header=) | get_remaining_data
+
+
+def case_readerops(a, ops: str):
+    """one ASN1Reader over 6 concatenated values driven by a sequence of cursor operations; a plain index is the reference model"""
+    encs = [ref_enc(e) for e in OPS_ELEMS]
+    data = b"".join(encs)
+    r = a.ASN1Reader(data)
+    i = 0
+    drained = False
+    for step, op in enumerate(ops):
+        at_end = drained or i >= len(OPS_ELEMS)
+        try:
+            if op == "G":
+                got = r.get_remaining_data()
+                exp = b"" if drained else b"".join(encs[i:])
+                if got != exp:
+                    return "readerops.remaining", {"ops": ops, "step": step, "got": got.hex(), "expected": exp.hex()}
+                drained = True
+                continue
+            if at_end:
+                try:
+                    r.peek_header() if op in "PSH" else r.read_integer()
+                    return "readerops.no-error-at-end", {"ops": ops, "step": step}
+                except a.NotEnougData:
+                    continue
+            node = der.parse_one(encs[i])
+            if op in "PSH":
+                h = r.peek_header()
+                if (int(h.tag.tag_class), bool(h.tag.is_constructed), int(h.tag.tag_number), h.tag_length, h.length) != (node.cls, node.constructed, node.number, node.hdr, len(node.content)):
+                    return "readerops.peek", {"ops": ops, "step": step, "element": i, "header": repr(h)}
+            if op == "S":
+                r.skip_value(h)
+                i += 1
+            elif op == "R":
+                if impl_read(a, r, OPS_ELEMS[i]) != OPS_ELEMS[i]:
+                    return "readerops.read", {"ops": ops, "step": step, "element": i}
+                i += 1
+            elif op == "H":
+                k = OPS_ELEMS[i][0]
+                fn = {"int": r.read_integer, "oct": r.read_octet_string, "utf": r.read_utf8_string, "oid": r.read_object_identifier}.get(k)
+                if fn is None:
+                    sub = r.read_sequence(header=h)
+                    val = (k, tuple(impl_read(a, sub, c) for c in OPS_ELEMS[i][1]))
+                else:
+                    val = (k, fn(header=h))
+                if val != OPS_ELEMS[i]:
+                    return "readerops.read-with-header", {"ops": ops, "step": step, "element": i, "got": repr(val)}
+                i += 1
+        except Exception as e:  # noqa: BLE001
+            return f"readerops.exc.{type(e).__name__}", {"ops": ops, "step": step, "element": i, "exc": repr(e)}
+    return None
+
+
 # --------------------------------------------------------------------------------------
 
 
@@ -555,6 +614,21 @@ def run_shard(shard, tier, seed, acc) -> None:
                         n += 1
         acc.ev(n)
         acc.nt_counted(n)
+    elif kind == "readerops":
+        n = 0
+        depth = 6 if tier == "quick" else 8
+        for k in range(1, depth + 1):
+            for idx, ops in enumerate(itertools.product(OPS, repeat=k)):
+                if idx % 4 != shard[1]:
+                    continue
+                res = case_readerops(a, "".join(ops))
+                n += 1
+                if res:
+                    _report(acc, res, ["readerops", "".join(ops)])
+        acc.ev(n)
+        acc.nt_counted(n)
+        acc.outcome("ok", n)
+        acc.sample({"reader_operation_sequence": "PSRHGP"[:depth], "ops": "P=peek S=peek+skip R=read H=peek+read(header) G=get_remaining_data", "depth": depth})
     else:
         raise AssertionError(shard)
 
@@ -562,6 +636,10 @@ def run_shard(shard, tier, seed, acc) -> None:
 def replay(case, seed, acc) -> None:
     a = _mods()
     k = case[0]
+    if k == "readerops":
+        _report(acc, case_readerops(a, case[1]), case)
+        acc.ev()
+        return
     if k == "int":
         _report(acc, case_int(a, int(case[1])), case)
     elif k == "enum":
